@@ -12,7 +12,8 @@ def clean(): sh('git checkout -- . && git clean -fdq')
 clean()
 demo=meta['demo']
 # normalise the demo command
-demo=demo.split('   (')[0].split('  (')[0]
+m=re.match(r'^\s*(cp \S+ \S+ && go test .*?-count=1(?: -v)?)', demo)
+demo=m.group(1) if m else demo.split('   (')[0].split('  (')[0]
 demo=demo.replace('<repo>',wt).replace('<worktree>',wt)
 res={}
 rc,out=sh('git apply '+shlex.quote(os.path.join(d,'patch.diff')))
